@@ -37,6 +37,13 @@ add(_alloc_cfg('pocca_pocma', 1, 1, 0, 0))
 add(_alloc_cfg('pocca_pocs', 1, 0, 1, 0))
 add(_alloc_cfg('pocma_pocs', 0, 1, 1, 0))
 
+# capacity pairs: conversions between containers of different inline capacity (source role M)
+PAIR_ONLY = ['svb_move_assign_default__psvbM', 'svb_move_assign__psvbM', 'svb_copy_assign_default__pcsvbM', 'svb_copy_assign__pcsvbM',
+             'svb_ctor__psvbM', 'svb_ctor__pcsvbM_pcA', 'svb_move_assign_unequal_no_propagate__psvbM', 'sv_assign__psvM', 'sv_assign__pcsvM']
+_PF = {'MOVE_NOEXCEPT': 1, 'COPYABLE': 1, 'RELOCATE_WITH_MOVE': 1, 'POCCA': 0, 'POCMA': 0, 'POCS': 0, 'ALWAYS_EQUAL': 0}
+add(_c('pair_lt', N=3, M=2, only=PAIR_ONLY, facts=dict(_PF, M_LT_N=1, M_GT_N=0)))      # source inline capacity smaller than the destination's
+add(_c('pair_gt', N=3, M=5, only=PAIR_ONLY, facts=dict(_PF, M_LT_N=0, M_GT_N=1)))      # ... larger
+
 # the configuration class excluded everywhere else: inline capacity larger than max_size () (known finding KF-C12-1)
 add(_c('kf_inline_gt_max', model_defines={'KF_INLINE_EXCEEDS_MAX_SIZE': 1}, only=['svb_append_element__pcE'], props=['C12'],
        facts={'MOVE_NOEXCEPT': 1, 'COPYABLE': 1, 'RELOCATE_WITH_MOVE': 1, 'POCCA': 0, 'POCMA': 0, 'POCS': 0, 'ALWAYS_EQUAL': 0}))
@@ -45,6 +52,8 @@ def cfg_defines(cfg):
     d = ['-DCFG_CAP_BOUND=(1u<<30)', '-DCFG_ALLOC_MAX_BOUND=(1ul<<50)']
     if str(cfg['N']) == '0':
         d.append('-DCFG_N_ZERO')
+    if cfg.get('M') is not None:
+        d.append('-DCFG_HAS_M')
     if cfg.get('M') is not None and str(cfg['M']) == '0':
         d.append('-DCFG_M_ZERO')
     for k, v in cfg.get('model_defines', {}).items():
